@@ -84,7 +84,6 @@ def _module_codes(name: str) -> list[CodeType]:
 # --------------------------------------------------------------------------------------- generator
 SIMPLE = ["assign", "aug", "call", "assert", "ternary", "boolop", "listcomp", "dictcomp", "genexp", "lambda", "pass", "del"]
 COMPOUND = ["if", "if", "if", "while", "while", "for", "for", "try", "try", "with", "match", "def"]
-JUMPS = ["return", "return", "raise", "break", "continue", "yield", "yield", "yieldfrom", "await"]
 CMP = ["<", "<=", "==", "!=", ">", ">=", "is", "is not", "in", "not in"]
 EXC = ["ValueError", "KeyError", "(TypeError, OSError)", "Exception", None]
 PATTERNS = ["int", "str", "seq2", "seqstar", "map", "cls", "or", "capture-guard", "wild-guard", "none"]
@@ -454,19 +453,22 @@ def check_code(code: CodeType, out: Outcome, where: str) -> dict[str, Any]:
         return stats
     got: dict[tuple[Any, Any], Any] = {}
     for u, v, d in cdg.graph.edges(data=True):
-        got[_node_id(u), _node_id(v)] = d.get("branch_value")
+        # one label per edge, or (if the representation offers it) all labels in "branch_values"
+        got[_node_id(u), _node_id(v)] = set(d["branch_values"]) if d.get("branch_values") else {d.get("branch_value")}
     multi_sources: dict[Any, str] = {a: _block_class(cfg, a, edges) for (a, _), labs in expected.items() if len(labs) > 1}
     for (a, b), labs in sorted(expected.items(), key=repr):
         cls = _block_class(cfg, a, edges)
         if (a, b) not in got:
             out.fail(f"cdg|edge-missing|{cls}", f"{where}: expected {a!r} -> {b!r} {sorted(map(repr, labs))}; "
                                                 f"cdg edges {sorted(map(repr, got.items()))[:40]}")
+        elif got[a, b] == labs:
+            pass
         elif len(labs) > 1:
-            kind = "label-lost" if got[a, b] in labs else "label-wrong"
+            kind = "label-lost" if got[a, b] < labs else "label-wrong"
             out.fail(f"cdg|multi-{kind}|{cls}", f"{where}: {a!r} -> {b!r} is control dependent under {sorted(map(repr, labs))}, "
-                                                f"the graph holds {got[a, b]!r}")
-        elif got[a, b] not in labs:
-            out.fail(f"cdg|label-wrong|{cls}", f"{where}: {a!r} -> {b!r} expected {sorted(map(repr, labs))}, got {got[a, b]!r}")
+                                                f"the graph holds {sorted(map(repr, got[a, b]))}")
+        else:
+            out.fail(f"cdg|label-wrong|{cls}", f"{where}: {a!r} -> {b!r} expected {sorted(map(repr, labs))}, got {sorted(map(repr, got[a, b]))}")
     for (a, b), lab in sorted(got.items(), key=repr):
         if (a, b) not in expected:
             out.fail(f"cdg|edge-extra|{_block_class(cfg, a, edges)}", f"{where}: unexpected {a!r} -> {b!r} [{lab!r}]")
